@@ -55,6 +55,18 @@ func (*TL) M1()       {}
 func (*TL) LazyInit() {}
 func (*TL) Élan()     {}
 
+// Providers whose pointee is a named non-struct type with methods (a counter over int64, a
+// registry over a map): components too.
+type TNum int64
+
+func (*TNum) M1()             {}
+func (n *TNum) Ident() string { return fmt.Sprintf("TNum#%d", int64(*n)) }
+
+type TMapT map[string]int
+
+func (*TMapT) M1()             {}
+func (m *TMapT) Ident() string { return fmt.Sprintf("TMapT#%d", (*m)["id"]) }
+
 var TypedNames = []string{"TA", "TB", "TC", "TD", "TA2", "TL"}
 
 // Implements tells which universe types implement which interface.
